@@ -753,6 +753,14 @@ fn order_by_bool(t: &TableRef) -> Parsed {
     Parsed::Stmts(vec![Stmt::Select(s)], String::new())
 }
 
+/// `SELECT *, a FROM t WHERE s LIKE '_' ORDER BY "x y" IS NULL`
+fn order_by_isnull(t: &TableRef) -> Parsed {
+    let mut s = plain_sel(vec![Item::Wildcard, Item::Unnamed(id("a"))], t);
+    s.where_ = Some(AE::Like(false, Box::new(id("s")), Box::new(AE::Str("_".into())), None));
+    s.order_by = vec![(AE::IsNull(Box::new(AE::Ident("x y".into(), Some('"')))), None, "")];
+    Parsed::Stmts(vec![Stmt::Select(s)], String::new())
+}
+
 fn corpus(tables: &[TableRef]) -> Vec<(Parsed, &'static str)> {
     let t = tables[0].clone();
     let base = |items: Vec<Item>, limit: Lim, table: TableRef| Parsed::Stmts(vec![Stmt::Select(Sel { prefix: String::new(), distinct: false, items,
@@ -780,9 +788,11 @@ fn corpus(tables: &[TableRef]) -> Vec<(Parsed, &'static str)> {
         (base(a(), Lim::LimitOffset(Some(num("0")), None, false), t.clone()), "corpus:limit-zero"),
         // witnesses of the findings that are still open (first so that every run reports them) or were fixed by others
         (base(vec![Item::Unnamed(AE::Ident("*".into(), Some('"')))], Lim::None, t.clone()), "corpus:open:quoted-star"),
-        (base(vec![Item::Unnamed(bin("=", id("a"), id("b")))], Lim::None, t.clone()), "corpus:open:bool-projection-merge"),
-        (where_unknown(&meta), "corpus:open:where-null-partition"),
-        (order_by_bool(&t), "corpus:open:order-by-nullable-comparison"),
+        (base(vec![Item::Unnamed(bin("=", id("a"), id("b")))], Lim::None, t.clone()), "corpus:bool-projection-merge"),
+        (where_unknown(&meta), "corpus:where-null-partition"),
+        (order_by_bool(&t), "corpus:order-by-nullable-comparison"),
+        (base(vec![Item::Unnamed(bin("<=", id("a"), id("f"))), Item::Unnamed(func("AVG", vec![id("f")]))], Lim::None, t.clone()), "corpus:open:groupby-computed-key"),
+        (order_by_isnull(&t), "corpus:open:orderby-isnull-key"),
     ]
 }
 
